@@ -226,14 +226,32 @@ def live_queries(side, ptr_types, pages, rng, n):
     return out
 
 
+def asan_signature(text):
+    """(kind, first frame inside BugStalker or the harness) of an AddressSanitizer report"""
+    import re
+    m = re.search(r'ERROR: AddressSanitizer: ([A-Za-z0-9_-]+)', text)
+    kind = m.group(1) if m else 'unknown'
+    frame = None
+    for fm in re.finditer(r'^\s*#\d+ 0x[0-9a-f]+ in (\S+)', text, re.M):
+        fn = fm.group(1)
+        if 'bugstalker' in fn or 'bsmon' in fn:
+            frame = re.sub(r'::h[0-9a-f]{16}$', '', fn)
+            break
+    return kind, frame
+
+
 def live_case(spec):
-    idx, n, tier = spec
+    idx, n, tier = spec[:3]
+    asan = len(spec) > 3 and spec[3]
     v = Verdict('C08', tier, '')
-    rng = rng_for(common.seed(), 'c08l', idx)
+    rng = rng_for(common.seed(), 'c08a' if asan else 'c08l', idx)
     src, side = poison.gen(1)
     b = corpus.compile_rust('poison0', src, corpus.Config(tc='1.89' if idx % 2 else '1.95'), side)
     ctx = {'binary': b.path}
-    S = Session(b, v, mon=False, timeout=30)
+    if asan:
+        ctx['worker'] = 'AddressSanitizer build'
+    qt = 60 if asan else 20
+    S = Session(b, v, mon=False, timeout=90 if asan else 30, sanitized=asan)
     q = None
     try:
         S.launch()
@@ -253,8 +271,8 @@ def live_case(spec):
                                                                            (edge or 0x10) + 8, (edge or 0x10) + 15]
         qs = live_queries(side, ptr_types, pages, rng, n)
         for q in qs:
-            rr = S.cmd('var', expr=q, deref=2, timeout=20)
-            v.count('live_queries')
+            rr = S.cmd('var', expr=q, deref=2, timeout=qt)
+            v.count('asan_live_queries' if asan else 'live_queries')
             if 'ok' in rr and rr['ok']:
                 v.count('live_queries_with_results')
             if q.startswith('*(') or '(*(' in q:
@@ -267,7 +285,7 @@ def live_case(spec):
                             dict(ctx, query=q, probe=o))
         # memory reads with huge counts
         for cnt in (0, 1, 4096, 1 << 20, 1 << 40, (1 << 63) - 1):
-            rr = S.cmd('read_mem', addr=b.sym_addr('P_ONES'), n=cnt, timeout=20)
+            rr = S.cmd('read_mem', addr=b.sym_addr('P_ONES'), n=cnt, timeout=qt)
             v.count('huge_memory_reads')
         c = S.cmd('var', expr='arr[1]', deref=0)
         v.count('canaries')
@@ -276,14 +294,24 @@ def live_case(spec):
             v.violation('c08:canary-failed-after-live-queries', 'a plain query no longer answers correctly after hostile queries',
                         dict(ctx, reply=str(c)[:300]))
         v.count('probe_calls', (S.w.cmd('probe').get('ok') or {}).get('calls', 0))
-        v.case(signature=('live', idx), n=1)
+        if asan:
+            v.count('asan_sessions_clean')
+        v.case(signature=('live-asan' if asan else 'live', idx), n=1)
     except Crash as c:
         loc = (c.info or {}).get('panic', {}).get('loc') if c.kind == 'panic' else None
-        if c.kind == 'panic':
+        reports = (c.info or {}).get('sanitizer') or []
+        if reports:
+            kind, frame = asan_signature(reports[0])
+            v.violation(f'c08:asan:{kind}:{frame}', 'AddressSanitizer reported a memory error inside the debugger while it interpreted debuggee data',
+                        dict(ctx, query=q, report=reports[0][:5000]))
+        elif c.kind == 'panic':
             v.violation(f'crash:panic:{loc}', 'the debugger panicked on a data query', dict(ctx, query=q, panic=(c.info or {}).get('panic')))
         elif c.kind == 'hang':
             # a hang counts only if it reproduces on a fresh worker
-            v.violation('c08:hang-on-data-query', 'a data query does not return within 20 s', dict(ctx, query=q)) if _reproduces_hang(b, q) else v.inconc('hang-not-reproduced', q)
+            if asan:
+                v.inconc('slow-under-sanitizer', q)     # the 5-10x slower build is not a timing oracle
+            else:
+                v.violation('c08:hang-on-data-query', 'a data query does not return within 20 s', dict(ctx, query=q)) if _reproduces_hang(b, q) else v.inconc('hang-not-reproduced', q)
         else:
             v.violation(f'c08:debugger-abort-on-data-query:{(c.info or {}).get("exit_status")}', 'the debugger process died on a data query (abort / stack overflow / allocation failure)',
                         dict(ctx, query=q, info=c.info))
@@ -476,6 +504,16 @@ def main(tier):
         corpus.compile_rust('poison0', src, corpus.Config(tc=tc), side)
     for res in common.safe_map(live_case, [(i, 160, tier) for i in range(nl)], procs=8):
         V.merge(res)
+    # the same live leg against the AddressSanitizer build of the worker (memory errors in unsafe code that neither panic
+    # nor pass one of the bounds probes)
+    if common.asan_wanted(tier):
+        if common.asan_ready():
+            na = 6 if tier == 'quick' else 120
+            V.minima['asan_live_queries'] = 500 if tier == 'quick' else 15000
+            for res in common.safe_map(live_case, [(i, 160, tier, True) for i in range(na)], procs=8):
+                V.merge(res)
+        else:
+            V.inconc('asan-worker-not-built', 'the AddressSanitizer build of the worker is missing or older than the plain worker')
     for res in common.safe_map(console_case, [(i, tier) for i in range(2 if tier == 'quick' else 20)], procs=2):
         V.merge(res)
     for res in common.safe_map(dap_case, [(i, tier) for i in range(len(GARBAGE) * (2 if tier == 'quick' else 4))], procs=4):
